@@ -31,6 +31,11 @@ func c06Rules(p *core.Prog, r *core.Run) {
 		return
 	}
 	c06State(p, r, m, "C06")
+	// the alert of a refused second hello goes out through Write whatever the
+	// read side has recorded
+	directionOwnership(p, r, m, "C06.M6")
+	// the retry comparison looks at the lists as the client sent them
+	c05SniAlpn(p, r, m, "C06.M4.parse")
 }
 
 // c06State holds the rules on the inspection state machine; pre is the
@@ -174,7 +179,7 @@ func c06State(p *core.Prog, r *core.Run, m *echModel, pre string) {
 			v := p.X(st.Val)
 			switch core.Root(st.Parent()) {
 			case m.newConn:
-				ok := v.Op == "bin" && v.Name == "==" && v.Args[1].Name == "nil" && v.Args[0].Op == "field" && v.Args[0].Obj == m.fConn["inner"]
+				ok := v.Op == "bin" && v.Name == "==" && v.Args[1].Name == "nil" && m.innerRef(v.Args[0])
 				r.Check(pre+".M3", key, ok, p.InstrPos(st), "NewConn: %s = (inner == nil): %s", flag, short(v))
 			case m.read:
 				isTrue := v.Op == "const" && v.Name == "true"
